@@ -24,7 +24,7 @@ KNOWN_FILE = os.environ.get("VERIF_KNOWN") or os.path.join(ROOT, "known_findings
 
 
 def load_contracts():
-    for f in sorted(glob.glob(os.path.join(ROOT, "contracts", "C*.py")) + glob.glob(os.path.join(ROOT, "contracts", "proto*.py"))):
+    for f in sorted(glob.glob(os.path.join(ROOT, "contracts", "C*.py")) + glob.glob(os.path.join(ROOT, "contracts", "proto*.py")) + glob.glob(os.path.join(ROOT, "contracts", "XC_*.py"))):
         importlib.import_module("contracts." + os.path.basename(f)[:-3])
 
 
@@ -105,6 +105,33 @@ def _run_bounded(pid, tier, seed, q):
         q.put(("ok", (json.loads(json.dumps(r, default=repr)), info)))
     except BaseException as e:  # noqa: BLE001
         q.put(("error", f"{type(e).__name__}: {e}\n{traceback.format_exc()}"))
+
+
+def _run_xcheck(arg):
+    key, n, seed = arg
+    try:
+        load_contracts()
+        from . import xcheck
+
+        return key, xcheck.xcheck_contract(key, n, seed)
+    except Exception as e:  # noqa: BLE001
+        return key, {"status": "error", "cases": 0, "detail": f"{type(e).__name__}: {e}\n{traceback.format_exc()}"[:1500]}
+
+
+def run_xcheck(pid, tier, seed, jobs=None):
+    """Concrete cross-check of the encoding against CPython (pyvc/xcheck.py): the property's own functions under
+    contract whose inputs are plain data, plus the builtin-model self-test programs (property id XC)."""
+    load_contracts()
+    keys = [k for k, c in REGISTRY.items() if not c.assumed and (pid in props_of(c) or "XC" in props_of(c))]
+    if not keys:
+        return {}
+    n_own, n_xc = (40, 25) if tier == "thorough" else (6, 3)
+    # the self-test programs get a seed that differs per property, so the 20 checks sample different inputs
+    args = [(k, n_xc if "XC" in props_of(REGISTRY[k]) else n_own, seed * 1000 + sum(map(ord, pid))) for k in keys]
+    jobs = jobs or min(16, len(args), os.cpu_count() or 4)
+    ctx = mp.get_context("fork")
+    with ctx.Pool(jobs) as pool:
+        return dict(pool.map(_run_xcheck, args, chunksize=1))
 
 
 def run_deductive(pid, tier, known, jobs=None, only=None):
@@ -248,6 +275,7 @@ def check_property(pid, tier="quick", seed=0, manifest_level="proof", jobs=None,
         bproc.start()
     results = run_deductive(pid, tier, active_known, jobs, only)
     load_contracts()
+    xres = run_xcheck(pid, tier, seed, jobs) if not only else {}
     n_obl = n_dis = 0
     backends = {}
     solver_time = 0.0
@@ -376,6 +404,17 @@ def check_property(pid, tier="quick", seed=0, manifest_level="proof", jobs=None,
         for chk in bounded.get("checks", []):
             for smp in chk.get("samples", [])[:2]:
                 cov["samples"].append({"bounded_check": chk["name"], "case": _jsonable(smp)})
+    xbad = {k: v for k, v in xres.items() if v["status"] in ("mismatch", "error")}
+    if xbad:
+        k0 = sorted(xbad)[0]
+        checker_broken = (checker_broken + "; " if checker_broken else "") + f"encoding cross-check against CPython failed for {k0}: {json.dumps(xbad[k0], default=repr)[:1500]}"
+    cov["encoding_cross_check"] = {
+        "what": "real functions (and the builtin-model self-test programs of spec/xcheck_cases.py) run in CPython on sampled concrete inputs and symbolically with the inputs equated to the same constants; CPython's outcome must be one of the outcomes pyvc explores",
+        "functions_checked": sorted(k for k, v in xres.items() if v["status"] == "ok"),
+        "cases": sum(v.get("cases", 0) for v in xres.values()),
+        "not_cross_checkable": {k: v.get("detail", "")[:160] for k, v in sorted(xres.items()) if v["status"] == "skipped"},
+        "mismatches": xbad,
+    }
     ev = {
         "property_id": pid,
         "tier": tier,
@@ -422,9 +461,9 @@ def match_known_bounded(known, check_name, fail):
 
 def trusted_base(results):
     tb = [
-        "pyvc: the AST->SMT encoding of the Python subset (DESIGN.md §3), cross-checked against CPython on concrete inputs (xcheck)",
+        "pyvc: the AST->SMT encoding of the Python subset (DESIGN.md §3); cross-checked against CPython on sampled concrete inputs for the functions listed under coverage.encoding_cross_check (functions with opaque children are not cross-checkable that way)",
         "z3 5.1 / cvc5 soundness",
-        "builtin models (slice.indices, range, list methods, floor division, int/round on rationals) — cross-checked against CPython on every run",
+        "builtin models (slice.indices, range, list methods, floor division, int/round on rationals, bit operations ...) — exercised by the self-test programs of spec/xcheck_cases.py against CPython on every run (sampled, seeded per property)",
         "machine floats in rounding idioms treated as exact rationals (operands < 2^26)",
         "logger/warnings calls dropped",
     ]
